@@ -258,7 +258,14 @@ func c06Run(j c06Job) (res c06Res) {
 		}
 	}()
 	for _, f := range j.Faults {
+		n6, n15 := len(res.Viols), len(res.Viols15)
 		c06One(wl, f, &res)
+		for i := n6; i < len(res.Viols); i++ {
+			res.Viols[i].Replay = map[string]any{"workload": j.WL, "workload_name": wl.Name, "fault": f}
+		}
+		for i := n15; i < len(res.Viols15); i++ {
+			res.Viols15[i].Replay = map[string]any{"workload": j.WL, "workload_name": wl.Name, "fault": f}
+		}
 		if res.Infra != "" || len(res.Viols) >= 6 {
 			return
 		}
